@@ -521,21 +521,47 @@ class Prover:
                         self._fail_shape(oname, sa, sb, p, sc, params, k)
                         continue
                     fa, fb = flat(a), flat(b)
-                    conj = [_z(x) == _z(y) for x, y in zip(fa, fb)]
-                    bad = [badz(x) for x in fa if isinstance(x, SV) and x.bad is not None]
-                    bad += [badz(y) for y in fb if isinstance(y, SV) and y.bad is not None]
-                    claim = z3.And(*(conj + [z3.Not(x) for x in bad])) if (conj or bad) else z3.BoolVal(True)
+                    claims = []
+                    for x, y in zip(fa, fb):
+                        cj = [_z(x) == _z(y)]
+                        if isinstance(x, SV) and x.bad is not None:
+                            cj.append(z3.Not(x.bad))
+                        if isinstance(y, SV) and y.bad is not None:
+                            cj.append(z3.Not(y.bad))
+                        claims.append(z3.And(*cj) if len(cj) > 1 else cj[0])
+                    if not claims:
+                        claims = [z3.BoolVal(True)]
                 elif kind == "claim":
                     if isinstance(a, (bool, _np.bool_)):
-                        claim = z3.BoolVal(bool(a))
+                        claims = [z3.BoolVal(bool(a))]
                     else:
-                        claim = a.z if isinstance(a, SB) else a
+                        claims = [a.z if isinstance(a, SB) else a]
                 else:
                     bad = [badz(x) for x in flat(a) if isinstance(x, SV) and x.bad is not None]
-                    claim = z3.Not(z3.Or(*bad)) if bad else z3.BoolVal(True)
+                    claims = [z3.Not(b) for b in bad] or [z3.BoolVal(True)]
             except Exception as e:
                 self.rec(oname, "error", detail="building claim: %r" % (e,))
                 continue
+            self._prove_all(oname, pc, claims, out, sc, params, k, reach)
+
+    def _prove_all(self, oname, pc, claims, out, sc, params, key, reach):
+        """element-wise: many small queries instead of one big disjunction; one record"""
+        n0 = len(self.records)
+        tot, nax = 0.0, 0
+        for ci, claim in enumerate(claims):
+            self._prove(oname, pc, claim, out, sc, params, key, reach)
+            r = self.records.pop()
+            tot += r.get("time", 0.0)
+            nax = max(nax, r.get("axioms", 0))
+            if r["verdict"] != "unsat":
+                r["time"] = round(tot, 3)
+                r["element"] = ci
+                self.records.append(r)
+                return
+        self.rec(oname, "unsat", time=round(tot, 3), axioms=nax, elements=len(claims), reach=reach)
+
+    def _unused(self):
+        if False:
             self._prove(oname, pc, claim, out, sc, params, k, reach)
 
     def _fail_shape(self, oname, sa, sb, p, sc, params, key):
@@ -598,10 +624,17 @@ class Prover:
                     got = out.eq[key][0]
                     if shape_of(got) != shape_of(alt):
                         continue
-                    fa, fb = flat(got), flat(alt)
-                    conj = [_z(x) == _z(y) for x, y in zip(fa, fb)]
-                    bads = [z3.Not(badz(y)) == z3.Not(badz(x)) for x, y in zip(fa, fb)]
-                    claim = z3.And(*(conj + bads))
+                    ok = True
+                    for x, y in zip(flat(got), flat(alt)):
+                        claim = z3.And(_z(x) == _z(y), badz(x) == badz(y))
+                        ax = self._axioms(pc + [claim], out)
+                        r, s, dt = self._check(pc + ax + [z3.Not(claim)])
+                        if r != "unsat":
+                            ok = False
+                            break
+                    if ok:
+                        return fk
+                    continue
                 else:
                     claim = alt.z if isinstance(alt, SB) else alt
                     if isinstance(claim, (bool, _np.bool_)):
